@@ -115,6 +115,30 @@ def r2_copy_completeness(R) -> None:
             ok = _deep_copy_arms(a2) or (isinstance(a2, ast.DictComp) and _deep_copy_arms(a2.key) and _deep_copy_arms(a2.value))
             R.check(ok, q, 'ctor-arg:' + text(a)[:50], 'constructor arguments of the copy are deep copies',
                     f'`{text(a2)[:60]}` is passed to the new object by reference', where=f.where(new))
+        # the constructor validates its arguments against each other (a linker's name against its submodel ids): a copy that
+        # hands over only some of them has the others checked at their *defaults*, so an object the constructor accepted
+        # may have no copy - every parameter that shares a rejection test with a passed one must be passed too
+        init_q = q.rsplit('.', 1)[0] + '.__init__'
+        if init_q in R.repo.functions:
+            fi_ = Fn(R, init_q)
+            passed_kw = {k.arg for k in ctor.keywords if k.arg}
+            params_ = fi_.fi.params()[1:]
+            passed_kw |= set(params_[:len(ctor.args)])
+            seen_guard = set()
+            for r_ in fi_.raises():
+                for (a_, _tr, _t) in fi_.guard_atoms(r_.id):
+                    if text(a_) in seen_guard:
+                        continue
+                    seen_guard.add(text(a_))
+                    names_ = {x.id for x in ast.walk(a_) if isinstance(x, ast.Name) and x.id in params_}
+                    if names_ & passed_kw and names_ - passed_kw:
+                        # only parameters still holding what was passed in count
+                        missing = sorted(n_ for n_ in names_ - passed_kw if all(s_ == PARAM for (s_, _v) in fi_.lf.values_reaching(_t.id, n_)))
+                        if missing:
+                            R.violation(q, 'ctor-guard-sees-default:' + ','.join(missing),
+                                        f'`{text(ctor)[:50]}...` rebuilds the object without `{", ".join(missing)}`, which {init_q.split(".")[-2]}.__init__ checks against '
+                                        f'`{", ".join(sorted(names_ & passed_kw))}` (`{text(a_)[:50]}`): the check then sees the default, so an object the constructor accepted '
+                                        f'(a linker named \'L\' with a submodel \'_\') cannot be copied', where=f.where(new))
         # the new object's __dict__ is filled either by `.update(<mapping>)` or by stores in a loop: both are read as
         # the equivalent dict comprehension
         ups = [n for n in f.cfg.nodes if n.kind == 'stmt' and n.ast is not None and any(method_call(x, 'update') and text(x.func.value) == f'{obj}.__dict__' for x in ast.walk(n.ast))]
